@@ -114,6 +114,9 @@ class HashedIterable(Generic[T]):
         """
         yield from self.values.values()
         for v in self.iterable:
+            if v.id_ in self.values:
+                # listed more than once: it was already yielded, and later iterations will yield it once as well.
+                continue
             self.values[v.id_] = v
             yield v
 
